@@ -15,6 +15,7 @@ import P2sh.Driver.CliDrv
 import P2sh.Driver.ReplDrv
 import P2sh.Driver.FilterDrv
 import P2sh.Driver.CoreDrv
+import P2sh.Driver.ParseDrv
 open P2sh.Driver
 
 def dispatch (line : String) : String :=
@@ -24,6 +25,7 @@ def dispatch (line : String) : String :=
   if line.startsWith "filter " then FilterDrv.run line else
   if line.startsWith "core " then CoreDrv.run line else
   if line.startsWith "core2 " then CoreDrv.run2 line else
+  if line.startsWith "pexpr " then ParseDrv.run line else
   match words line with
   | [] => "bad-op"
   | op :: args =>
